@@ -68,23 +68,23 @@ def witness_cases(rng):
     W.append(mk(900101, "a RAW FLOAT64 3\nb RAW FLOAT64 2\nm MULTIPLY a b\n", {"a": a20, "b": [1]},
                 ["raw 0 9 3 0 20 " + h(a20), "raw 1 9 2 0 1 " + h([1]), "def a raw 0", "def b raw 1", "def m multiply a b"],
                 [("m", 9, 1, 2)], ["m"]))
-    W[-1].raws = [(0, "a", 3, 0, 20)]
+    W[-1].raws = [(0, "a", 3, 0, 20)]; W[-1].ref = W[-1].raws[0]
     a4 = [1, 2, 3, 4]
     W.append(mk(900102, "a RAW FLOAT64 1\np PHASE a 10\nq PHASE p -8\n", {"a": a4},
                 ["raw 0 9 1 0 4 " + h(a4), "def a raw 0", "def p phase a 10", "def q phase p -8"],
                 [("q", 9, 0, 10)], ["q"]))
-    W[-1].raws = [(0, "a", 1, 0, 4)]
+    W[-1].raws = [(0, "a", 1, 0, 4)]; W[-1].ref = W[-1].raws[0]
     # open findings, replayed on every run
     a12 = list(range(1, 13)); b21 = list(range(1, 22))
     W.append(mk(900103, "/FRAMEOFFSET 2\na RAW FLOAT64 2\nb RAW FLOAT64 7\nf3 PHASE b -1\nm MULTIPLY a f3\n", {"a": a12, "b": b21},
                 ["raw 0 9 2 2 12 " + h(a12), "raw 1 9 7 2 21 " + h(b21), "def a raw 0", "def b raw 1", "def f3 phase b -1", "def m multiply a f3"],
                 [("m", 9, 3, 4)], ["m"]))
-    W[-1].raws = [(0, "a", 2, 2, 12)]
+    W[-1].raws = [(0, "a", 2, 2, 12)]; W[-1].ref = W[-1].raws[0]
     i20 = [0, 1] * 10
     W.append(mk(900104, "a RAW FLOAT64 1\ni RAW FLOAT64 1\np PHASE i 6\nx MPLEX a p 2 0\n", {"a": a20, "i": i20},
                 ["raw 0 9 1 0 20 " + h(a20), "raw 1 9 1 0 20 " + h(i20), "def a raw 0", "def i raw 1", "def p phase i 6", "def x mplex a p 2 0"],
                 [("x", 9, 0, 1)], ["x"]))
-    W[-1].raws = [(0, "a", 1, 0, 20)]
+    W[-1].raws = [(0, "a", 1, 0, 20)]; W[-1].ref = W[-1].raws[0]
     return W
 
 
@@ -232,7 +232,7 @@ def main():
             li = c.nfr[0].split()
             if len(li) == 2 and li[0] == "N" and c.raws:
                 st["nframes"] += 1
-                rid, name, spf, fo, nsamp = c.raws[0]
+                rid, name, spf, fo, nsamp = getattr(c, "ref", None) or c.raws[0]        # the /REFERENCE field (any fragment)
                 want = nsamp // spf + fo
                 if int(li[1]) != want:
                     viol("extents/nframes", "gd_nframes = %s but the reference field %s has %d complete frames and frame offset %d\n%s" % (
